@@ -276,14 +276,14 @@ func regBuild(c *Ctx, s regFileSpec) *regFile {
 
 var regPkgs = []string{"", "a", "a.b", "a.b.c", "b"}
 var regNames = []string{"a", "b", "c", "M", "E", "V", "X", "S", "f", "o"}
-var regPaths = []string{"p1.proto", "p2.proto", "p3.proto", "d/p1.proto", "p4.proto", "p5.proto"}
+var regPaths = []string{"p0.proto", "p1.proto", "p2.proto", "p3.proto", "p4.proto", "p5.proto", "p6.proto", "d/p1.proto", "none.proto"}
 
 // regPick draws a name from the pool; mostly avoids names already used in this scope so
 // that most generated files are accepted by NewFile.
 func regPick(c *Ctx, used map[string]bool) string {
 	for try := 0; try < 8; try++ {
 		n := regNames[c.Intn(len(regNames))]
-		if !used[n] || c.Intn(12) == 0 {
+		if !used[n] || c.Intn(60) == 0 {
 			used[n] = true
 			return n
 		}
@@ -358,8 +358,12 @@ func regFixMsg(c *Ctx, m *regMsgSpec, all, ranged []string) {
 	}
 }
 
-func regGenSpec(c *Ctx) regFileSpec {
-	s := regFileSpec{path: regPaths[c.Intn(len(regPaths))], pkg: regPkgs[c.Intn(len(regPkgs))]}
+func regGenSpec(c *Ctx, idx int) regFileSpec {
+	// mostly one path per file; sometimes a path that another file of the pool is likely to have
+	s := regFileSpec{path: "p" + strconv.Itoa(idx) + ".proto", pkg: regPkgs[c.Intn(len(regPkgs))]}
+	if c.Intn(5) == 0 {
+		s.path = []string{"p0.proto", "p1.proto", "d/p1.proto"}[c.Intn(3)]
+	}
 	used := map[string]bool{}
 	for i, n := 0, c.Intn(3); i < n; i++ {
 		s.enums = append(s.enums, regGenEnum(c, used))
@@ -549,6 +553,11 @@ func regRunFiles(c *Ctx, pool []*regFile, script []int) {
 		}
 	}()
 	names := regCandidateNames(pool)
+	// probe set of predicate (a): the packages plus a fixed random subset of the candidate names
+	probe := append([]string(nil), regPkgs...)
+	for i := 0; i < 40; i++ {
+		probe = append(probe, names[c.Intn(len(names))])
+	}
 	r := new(protoregistry.Files)
 	ins := make([]string, 0, len(pool)+len(script))
 	for _, f := range pool {
@@ -562,13 +571,13 @@ func regRunFiles(c *Ctx, pool []*regFile, script []int) {
 		case sc >= 0:
 			i := sc % len(pool)
 			op = "reg:" + strconv.Itoa(i)
-			before := regProbe(pool, r, names)
+			before := regProbe(pool, r, probe)
 			err := r.RegisterFile(pool[i].fd)
 			ob = regErrClass(err)
 			c.Stat("files:reg:" + ob)
 			if err != nil {
 				// (a) a failed registration changes no observation
-				if k := regSameProbe(before, regProbe(pool, r, names)); k >= 0 {
+				if k := regSameProbe(before, regProbe(pool, r, probe)); k >= 0 {
 					c.PropFail("C33", "failed RegisterFile changed an observation", strings.Join(ins, " "), op, strconv.Itoa(k))
 				}
 			} else {
@@ -802,6 +811,10 @@ func regRunTypes(c *Ctx, pool []*regFile, nops int) {
 		}
 	}()
 	names := regCandidateNames(pool)
+	probe := append([]string(nil), regPkgs...)
+	for i := 0; i < 30; i++ {
+		probe = append(probe, names[c.Intn(len(names))])
+	}
 	var tnames []string // names of types (hit rate) + some others
 	for _, t := range tp {
 		tnames = append(tnames, t.name, t.extendee)
@@ -845,7 +858,7 @@ func regRunTypes(c *Ctx, pool []*regFile, nops int) {
 		case k < 8:
 			i := c.Intn(len(tp))
 			t := tp[i]
-			before := regTypesProbe(tp, r, names)
+			before := regTypesProbe(tp, r, append(probe, t.name, t.extendee))
 			var err error
 			switch t.kind {
 			case "msg":
@@ -861,7 +874,7 @@ func regRunTypes(c *Ctx, pool []*regFile, nops int) {
 			ob = regTypeErr(err)
 			c.Stat("types:reg" + t.kind + ":" + ob)
 			if err != nil {
-				if k := regSameProbe(before, regTypesProbe(tp, r, names)); k >= 0 {
+				if k := regSameProbe(before, regTypesProbe(tp, r, append(probe, t.name, t.extendee))); k >= 0 {
 					c.PropFail("C33", "failed Types registration changed an observation", strings.Join(ins, " "), op, strconv.Itoa(k))
 				}
 			} else {
@@ -1066,7 +1079,7 @@ func famReg(c *Ctx) {
 	for h := 0; h < c.N; h++ {
 		var pool []*regFile
 		for i, n := 0, 3+c.Intn(4); i < n; i++ {
-			if f := regBuild(c, regGenSpec(c)); f != nil {
+			if f := regBuild(c, regGenSpec(c, i)); f != nil {
 				pool = append(pool, f)
 			}
 		}
@@ -1076,9 +1089,15 @@ func famReg(c *Ctx) {
 		c.StatN("files:pool", len(pool))
 		nops := 10 + c.Intn(31)
 		script := make([]int, nops)
+		tried := map[int]bool{}
 		for i := range script {
 			if c.Intn(10) < 3 {
-				script[i] = c.Intn(len(pool))
+				k := c.Intn(len(pool))
+				for try := 0; try < 4 && tried[k] && c.Intn(5) != 0; try++ { // prefer files not yet tried
+					k = c.Intn(len(pool))
+				}
+				tried[k] = true
+				script[i] = k
 			} else {
 				script[i] = -1
 			}
